@@ -16,6 +16,10 @@ Per message kind K and stack S:
                       fragment fields) agree with the data, the body is exactly the grammar;
   C14_reencode_K_S    whatever the spec's strict decoder accepts, the library decodes to the same
                       fields, those fields are within range and re-encode to the same bytes.
+Emission ("every message the library emits decodes"): C14_emitted_* for the constructors' shape,
+and for the ClientHello the constructor itself (`Model.Make.makeClientHello`, hostnameInSNI
+included): C14_sni_no_trailing_dot (every ServerName string), C14_makeClientHello_emitted_S,
+C14_makeClientHello_decodes_S.
 -/
 import Gotlcp.Lemmas.Codec
 import Gotlcp.Lemmas.CodecDtlcp
@@ -24,7 +28,9 @@ import Gotlcp.Lemmas.CodecHelloStrict
 import Gotlcp.Lemmas.CodecHelloCanon
 import Gotlcp.Lemmas.CodecHelloAccept
 import Gotlcp.Lemmas.CodecEmitted
+import Gotlcp.Lemmas.CodecMake
 import Gotlcp.Model.CodecParams
+import Gotlcp.Tie.UnmarshalTlcpCodec
 
 set_option linter.unusedSimpArgs false
 set_option linter.unusedVariables false
@@ -790,5 +796,209 @@ theorem C14_emitted_decodes_dtlcp (h : DHdr) (he : emittedDHdr h = true) :
 
 end EmittedDtlcp
 end Emitted
+
+/-! ## The ClientHello constructor (configuration -> message)
+
+`Model.Make.makeClientHello` transcribes makeClientHello of both stacks as a function of the
+configuration fields it reads; `Model.Make.hostnameInSNI` transcribes the helper that derives the
+server_name (C14_make_facts pins the source statements transcribed).  The decoder refuses a
+host_name that ends in a dot, so the emitted name must never end in one: C14_sni_no_trailing_dot
+proves it for every ServerName string (any number of trailing dots, brackets, zones) and every
+answer of the IP-literal test.  C14_makeClientHello_emitted_*: whatever the constructor returns
+for a configuration whose echoed / variable-size inputs fit (session id, cookie, well-formed
+trusted-CA entries, at least one usable suite, extension block below 2^16) is inside the shape
+`emittedClientHello`, hence (C14_makeClientHello_decodes_*) its encoding is decoded by the same
+library to the same fields.  The driver's `emit` phase runs the real client on generated
+configurations and checks bytes and decodability against this model. -/
+
+section Make
+open Gotlcp.Model.Emitted Gotlcp.Model.Make Gotlcp.Lemmas.CodecMake
+
+/-- the source text the emission model transcribes, and the constants it uses -/
+theorem C14_make_facts :
+    Facts.tlcp.emitSNIStmts = ["host := name",
+      "if len(host) > 0 && host[0] == '[' && host[len(host)-1] == ']' { host = host[1 : len(host)-1] }",
+      "if i := strings.LastIndex(host, \"%\"); i > 0 { host = host[:i] }",
+      "if net.ParseIP(host) != nil { return \"\" }",
+      "for len(name) > 0 && name[len(name)-1] == '.' { name = name[:len(name)-1] }",
+      "return name"] ∧
+    Facts.dtlcp.emitSNIStmts = Facts.tlcp.emitSNIStmts ∧
+    Facts.tlcp.emitSNIAssign = "hostnameInSNI(config.ServerName)" ∧
+    Facts.dtlcp.emitSNIAssign = "hostnameInSNI(config.ServerName)" ∧
+    Facts.tlcp.emitALPNGuard = ["nextProtosLength := 0",
+      "for _, proto := range config.NextProtos { if l := len(proto); l == 0 || l > 255 { return nil, errors.New(\"tlcp: invalid NextProtos value\") } nextProtosLength += 1 + len(proto) }",
+      "if nextProtosLength > 0xffff { return nil, errors.New(\"tlcp: NextProtos values too large\") }",
+      "hello.alpnProtocols = config.NextProtos"] ∧
+    Facts.dtlcp.emitALPNGuard = Facts.tlcp.emitALPNGuard ∧
+    makeT.ecdhe = [0xe051, 0xe011] ∧ makeD.ecdhe = [0xe051, 0xe011] ∧
+    makeT.sigSuites = [0xe051, 0xe011, 0xe013, 0xe053] ∧ makeD.sigSuites = makeT.sigSuites ∧
+    makeT.defaultSuites = paramsT.suites ∧ makeD.defaultSuites = paramsD.suites ∧
+    makeT.curveSM2 = 41 ∧ makeD.curveSM2 = 41 ∧
+    makeT.taHashLen = 32 ∧ makeD.taHashLen = 32 ∧ makeT.taHashTypes = [4, 5] ∧ makeD.taHashTypes = [4, 5] ∧
+    Facts.missing = [] :=
+  ⟨rfl, rfl, rfl, rfl, rfl, rfl, by decide, by decide, by decide, by decide, by decide, by decide, by decide, by decide,
+   by decide, by decide, by decide, by decide, by decide⟩
+
+/-- the server name put on the wire never ends in a dot: for EVERY `Config.ServerName` string and
+whatever the IP-literal test answers -/
+theorem C14_sni_no_trailing_dot (ip : Bytes → Bool) (name : Bytes) :
+    Spec.Codec.noTrailingDot (hostnameInSNI ip name) = true :=
+  hostnameInSNI_noTrailingDot ip name
+
+/-- non-vacuity / witnesses: two and three trailing dots, a bracketed IPv6 literal with a zone, an IPv4 literal -/
+example : hostnameInSNI isIP [116, 101, 115, 116, 46, 99, 111, 109, 46, 46] = [116, 101, 115, 116, 46, 99, 111, 109] ∧
+    hostnameInSNI isIP [97, 46, 46, 46] = [97] ∧
+    hostnameInSNI isIP [91, 102, 101, 56, 48, 58, 58, 49, 37, 101, 116, 104, 48, 93] = [] ∧
+    hostnameInSNI isIP [49, 46, 50, 46, 51, 46, 52] = [] ∧
+    hostnameInSNI isIP [49, 46, 50, 46, 51, 46, 52, 46] = [49, 46, 50, 46, 51, 46, 52] := by decide
+
+theorem C14_makeClientHello_emitted_tlcp (cfg : ClientCfg) (m : ClientHello)
+    (h : makeClientHello paramsT makeT cfg = some m)
+    (hsid : cfg.sid.length ≤ paramsT.sidLen) (hck : cfg.cookie.length = 0)
+    (htas : cfg.tas.all Spec.Codec.wfTA = true) (hne : 0 < m.suites.length)
+    (hlen : Spec.Codec.clientExtLen m < 65536) :
+    emittedClientHello paramsT false m = true :=
+  make_emitted paramsT makeT false cfg m (by decide) (by decide) (by decide) h hsid (by simpa using hck) htas hne hlen
+
+theorem C14_makeClientHello_emitted_dtlcp (cfg : ClientCfg) (m : ClientHello)
+    (h : makeClientHello paramsD makeD cfg = some m)
+    (hsid : cfg.sid.length ≤ paramsD.sidLen) (hck : cfg.cookie.length < 256)
+    (htas : cfg.tas.all Spec.Codec.wfTA = true) (hne : 0 < m.suites.length)
+    (hlen : Spec.Codec.clientExtLen m < 65536) :
+    emittedClientHello paramsD true m = true :=
+  make_emitted paramsD makeD true cfg m (by decide) (by decide) (by decide) h hsid (by simpa using hck) htas hne hlen
+
+/-- repair F60: a key_sm3_hash / cert_sm3_hash entry of an emitted ClientHello always carries exactly
+the 32 bytes the decoder reads (a configuration with another length is refused, nothing is sent) -/
+theorem C14_makeClientHello_hash_tas (cfg : ClientCfg) (m : ClientHello)
+    (h : makeClientHello paramsT makeT cfg = some m ∨ makeClientHello paramsD makeD cfg = some m) :
+    ∀ t ∈ m.tas, (t.ty = 4 ∨ t.ty = 5) → t.id.length = 32 := by
+  intro t ht hty
+  rcases h with h | h
+  · exact make_tas_hash paramsT makeT cfg m (by decide) h t ht (by rcases hty with e | e <;> rw [e] <;> decide)
+  · exact make_tas_hash paramsD makeD cfg m (by decide) h t ht (by rcases hty with e | e <;> rw [e] <;> decide)
+
+/-- … and the refusal is real: a 5-byte key hash yields no hello at all -/
+example : makeClientHello paramsT makeT
+    ⟨[97], [], none, [⟨4, [1, 2, 3, 4, 5]⟩], none, 0, List.replicate 32 7, 1700000000, [], []⟩ = none := by decide
+
+/-- the hypotheses are satisfiable on a non-trivial configuration: ServerName "a.b..", two ALPN
+names, a trusted-CA entry, default suites without client certificates -/
+example : ∃ m, makeClientHello paramsT makeT
+      ⟨[97, 46, 98, 46, 46], [[104, 50], [104, 51]], none, [⟨0, []⟩], none, 0, List.replicate 32 7, 1700000000, [], []⟩ = some m ∧
+    m.serverName = [97, 46, 98] ∧ m.suites = [(0xe0, 0x53), (0xe0, 0x13)] ∧ m.sigAlgs = [(7, 4)] ∧
+    m.random.take 4 = [0x65, 0x53, 0xf1, 0x00] ∧
+    m.tas.all Spec.Codec.wfTA = true ∧ Spec.Codec.clientExtLen m < 65536 := by
+  refine ⟨_, rfl, ?_⟩
+  decide
+
+/-- TLCP: the ClientHello the client constructs is decoded by the same library to the same fields -/
+theorem C14_makeClientHello_decodes_tlcp (cfg : ClientCfg) (m : ClientHello)
+    (h : makeClientHello paramsT makeT cfg = some m)
+    (hsid : cfg.sid.length ≤ paramsT.sidLen) (hck : cfg.cookie.length = 0)
+    (htas : cfg.tas.all Spec.Codec.wfTA = true) (hne : 0 < m.suites.length)
+    (hlen : Spec.Codec.clientExtLen m < 65536) :
+    ∃ b, encClientHello codesT m = some b ∧ unmarshalClientHello codesT b = .ok m :=
+  C14_emitted_decodes_tlcp.1 m (C14_makeClientHello_emitted_tlcp cfg m h hsid hck htas hne hlen)
+
+/-- DTLCP: likewise, for the first hello and for the one answering a HelloVerifyRequest -/
+theorem C14_makeClientHello_decodes_dtlcp (hd : DHdr) (he : emittedDHdr hd = true) (cfg : ClientCfg) (m : ClientHello)
+    (h : makeClientHello paramsD makeD cfg = some m)
+    (hsid : cfg.sid.length ≤ paramsD.sidLen) (hck : cfg.cookie.length < 256)
+    (htas : cfg.tas.all Spec.Codec.wfTA = true) (hne : 0 < m.suites.length)
+    (hlen : Spec.Codec.clientExtLen m < 65536) :
+    ∃ b n, Model.CodecDtlcp.encClientHello codesD hd m = some b ∧
+      Model.CodecDtlcp.decClientHello codesD b = .ok (⟨hd.seq, 0, n⟩, m) :=
+  (C14_emitted_decodes_dtlcp hd he).1 m (C14_makeClientHello_emitted_dtlcp cfg m h hsid hck htas hne hlen)
+
+end Make
+
+/-! ## The translated source text of the hand-written tlcp decoders computes what the model computes
+
+`Gotlcp.Src.tlcp.*` is regenerated from tlcp/handshake_messages.go by `harness/cmd/go2lean` on every
+run (a statement-by-statement shallow embedding; bytes are `BitVec 8`, `abs` maps them to the model's
+`UInt8`).  `Gotlcp.Tie.UnmarshalTlcp` proves each translated decoder equal to a closed form by loop
+invariants; `Gotlcp.Tie.UnmarshalTlcpCodec` proves the closed forms equal to the model decoders
+`unmarshalK codesT`.  So, for EVERY receiver value and EVERY byte string, the translated function
+returns `(m', true)` with the fields the model decodes exactly when the model accepts, `(m', false)`
+exactly when the model refuses, and never panics: the theorems C14_total_K_tlcp, C14_strict_K_tlcp,
+C14_reencode_K_tlcp, C14_roundtrip_K_tlcp above, stated about the model, hold of the source text. -/
+
+section SrcTlcp
+open Gotlcp.Tie.UnmarshalTlcpCodec
+
+/-- the literals in the translated text (message types 11, 12, 13, 14, 16; header length 4) are the
+regenerated facts the model is instantiated with, and all five decoders are in the guarded list -/
+theorem C14_src_codes_tlcp :
+    Src.untranslated = [] ∧
+    u8 codesT.tCertificate = UInt8.ofBitVec 11#8 ∧ u8 codesT.tServerKeyExchange = UInt8.ofBitVec 12#8 ∧
+    u8 codesT.tCertificateRequest = UInt8.ofBitVec 13#8 ∧ u8 codesT.tServerHelloDone = UInt8.ofBitVec 14#8 ∧
+    u8 codesT.tClientKeyExchange = UInt8.ofBitVec 16#8 ∧ codesT.hl = 4 := by
+  decide
+
+/-- `tlcpIsCompleteMessage`: translated text = model, every byte string, each guarded type -/
+theorem C14_src_isComplete_tlcp (data : List (BitVec 8)) (t : BitVec 8) (T : Nat) (hT : u8 T = UInt8.ofBitVec t) :
+    ∃ b, Src.tlcp.tlcpIsCompleteMessage data t = .ok b ∧
+      Model.Codec.tlcpIsCompleteMessage (abs data) T = .ok b :=
+  ⟨_, Tie.UnmarshalTlcp.tie_isComplete data t, model_isComplete data t T hT⟩
+
+/-- `certificateMsg.unmarshal`: accepted with the model's certificate list, or refused like the model -/
+theorem C14_src_certificate_tlcp (m : Src.tlcp.certificateMsg) (data : List (BitVec 8)) :
+    Agree (fun m' => (⟨m'.certificates.map abs⟩ : Certificate)) (Src.tlcp.certificateMsg.unmarshal m data)
+      (unmarshalCertificate codesT (abs data)) :=
+  tie_codec_certificate m data
+
+/-- `certificateRequestMsg.unmarshal`: certificate types and CA names -/
+theorem C14_src_certificateRequest_tlcp (m : Src.tlcp.certificateRequestMsg) (data : List (BitVec 8)) :
+    Agree (fun m' => (⟨abs m'.certificateTypes, m'.certificateAuthorities.map abs⟩ : CertificateRequest))
+      (Src.tlcp.certificateRequestMsg.unmarshal m data) (unmarshalCertificateRequest codesT (abs data)) :=
+  tie_codec_certificateRequest m data
+
+/-- `serverKeyExchangeMsg.unmarshal`: the key blob -/
+theorem C14_src_serverKeyExchange_tlcp (m : Src.tlcp.serverKeyExchangeMsg) (data : List (BitVec 8)) :
+    Agree (fun m' => (⟨abs m'.key⟩ : Blob)) (Src.tlcp.serverKeyExchangeMsg.unmarshal m data)
+      (unmarshalServerKeyExchange codesT (abs data)) :=
+  tie_codec_serverKeyExchange m data
+
+/-- `clientKeyExchangeMsg.unmarshal`: the ciphertext blob -/
+theorem C14_src_clientKeyExchange_tlcp (m : Src.tlcp.clientKeyExchangeMsg) (data : List (BitVec 8)) :
+    Agree (fun m' => (⟨abs m'.ciphertext⟩ : Blob)) (Src.tlcp.clientKeyExchangeMsg.unmarshal m data)
+      (unmarshalClientKeyExchange codesT (abs data)) :=
+  tie_codec_clientKeyExchange m data
+
+/-- `serverHelloDoneMsg.unmarshal` (returns only the Boolean) -/
+theorem C14_src_serverHelloDone_tlcp (m : Src.tlcp.serverHelloDoneMsg) (data : List (BitVec 8)) :
+    ∃ b, Src.tlcp.serverHelloDoneMsg.unmarshal m data = .ok b ∧
+      unmarshalServerHelloDone codesT (abs data) = (if b then .ok () else .reject) :=
+  tie_codec_serverHelloDone m data
+
+/-- consequence, as an instance of how the model theorems transfer: whatever the TRANSLATED
+certificate decoder accepts is exactly one canonical encoding — re-encoding the decoded list with the
+model encoder gives back the input bytes (`C14_strict_certificate_tlcp` through the tie) -/
+theorem C14_src_accept_is_model_accept_certificate_tlcp (m m' : Src.tlcp.certificateMsg) (data : List (BitVec 8))
+    (h : Src.tlcp.certificateMsg.unmarshal m data = .ok (m', true)) :
+    unmarshalCertificate codesT (abs data) = .ok ⟨m'.certificates.map abs⟩ := by
+  have ha := C14_src_certificate_tlcp m data
+  cases ho : unmarshalCertificate codesT (abs data) with
+  | ok c =>
+    rw [ho] at ha
+    obtain ⟨m2, h2, hv⟩ := ha
+    rw [h] at h2
+    cases h2
+    rw [← hv]
+  | reject =>
+    rw [ho] at ha
+    obtain ⟨m2, h2⟩ := ha
+    rw [h] at h2
+    cases h2
+  | panic => rw [ho] at ha; exact ha.elim
+
+-- non-vacuity: a two-entry Certificate message through the translated decoder and through the model
+example : isOkC (Src.tlcp.certificateMsg.unmarshal {} [11, 0, 0, 12, 0, 0, 9, 0, 0, 2, 0xaa, 0xbb, 0, 0, 1, 0xcc])
+    [[0xaa, 0xbb], [0xcc]] = true := by decide
+example : unmarshalCertificate codesT (abs [11, 0, 0, 12, 0, 0, 9, 0, 0, 2, 0xaa, 0xbb, 0, 0, 1, 0xcc])
+    = .ok ⟨[[0xaa, 0xbb], [0xcc]]⟩ := by decide
+
+end SrcTlcp
 
 end Gotlcp.Props.C14
